@@ -289,10 +289,21 @@ func init() {
 			if tier == "thorough" {
 				b = 900
 			}
-			return []reg.Job{
-				{Part: "C04/cuts", Build: "instr", Args: map[string]string{"group": "calls"}, Shards: 16, BudgetS: b, Label: "calls: every cut point and failing write"},
-				{Part: "C04/cuts", Build: "instr", Args: map[string]string{"group": "xfer"}, Shards: 16, BudgetS: b, Label: "transfers: every cut point and failing write"},
+			js := []reg.Job{
+				{Part: "C04/cuts", Build: "instr", Args: map[string]string{"group": "calls", "cache": "1"}, Shards: 16, BudgetS: b, Label: "calls: every cut point and failing write"},
+				{Part: "C04/cuts", Build: "instr", Args: map[string]string{"group": "xfer", "cache": "1"}, Shards: 16, BudgetS: b, Label: "transfers: every cut point and failing write"},
 			}
+			// the same cases with deviations counted from other default schedulers (explore.Config.Policy)
+			pols := []string{"2", "3"}
+			if tier == "thorough" {
+				pols = []string{"1", "2", "3", "4"}
+			}
+			for _, p := range pols {
+				js = append(js,
+					reg.Job{Part: "C04/cuts", Build: "instr", Args: map[string]string{"group": "calls", "cache": "1", "policy": p}, Shards: 16, BudgetS: b, Label: "calls: every cut point and failing write [policy " + p + "]"},
+					reg.Job{Part: "C04/cuts", Build: "instr", Args: map[string]string{"group": "xfer", "cache": "1", "policy": p}, Shards: 16, BudgetS: b, Label: "transfers: every cut point and failing write [policy " + p + "]"})
+			}
+			return js
 		},
 	})
 }
